@@ -35,6 +35,7 @@ thread_timer = "0.3.0"
 arith = []
 cmpf = []
 pq = []
+cutwalk = []
 [workspace]
 [lints.rust]
 unexpected_cfgs = { level = "allow" }
